@@ -1,10 +1,11 @@
 CONSTANTS
   Third = {3}
-  Kinds = {"inse", "set", "del"}
+  Kinds = {"inse", "del"}
   MaxEd = 2
   MaxEd3 = 2
   MaxTotal = 5
-  MaxPre = 4
+  MaxPre = 3
+  MaxQ = 0
 SPECIFICATION Spec
 INVARIANTS InvQuiescentEqual InvSound InvOwn InvNothingStashed InvRoundTrip
 CHECK_DEADLOCK FALSE
